@@ -26,7 +26,7 @@ ASSUMPTIONS = ["every path stays inside one chromosome component (rank-0 nodes o
 
 
 def plan(tier):
-    return {"cases": 800 if tier == "quick" else 10000, "shards": 16,
+    return {"cases": 800 if tier == "quick" else 40000, "shards": 16,
             "shard_budget_s": 300 if tier == "quick" else 3300}
 
 
